@@ -1461,7 +1461,14 @@ func TestCorr(t *testing.T) {
 			Input scen `json:"input"`
 		}
 		if bz, err := os.ReadFile(rp); err == nil && json.Unmarshal(bz, &f) == nil && f.Input.Kind != "" {
-			runOne(t, run, f.Input, true)
+			switch f.Input.Kind {
+			case "hist":
+				runHist(t, run, f.Input, true)
+			case "tx":
+				runTx(t, run, f.Input, true)
+			default:
+				runOne(t, run, f.Input, true)
+			}
 		}
 	}
 	// corpus first
